@@ -27,10 +27,11 @@ inductive Val | nd | d (k : Nat) | nd2
 /-- exception classes: `runtime` = RuntimeError (locked input), `type` = TypeError,
 `recursion` = RecursionError (receiver chain deeper than the recursion limit / cyclic),
 `conn` = ChannelConnectionError, `value` = ValueError, `copy` = ValueCopyError,
-`readiness` = ReadinessError, `child` = FailedChildError (a composite whose child raised), `serial` = `pickle.dumps` / `loads` of a round trip raised (AttributeError
+`readiness` = ReadinessError, `child` = FailedChildError (a composite whose child raised), `replace` = `replace_child` refused (a copied
+connection or a value link the fresh node cannot take), `serial` = `pickle.dumps` / `loads` of a round trip raised (AttributeError
 for a macro input without receiver, KeyError for a label that cannot be resolved inside the
 composite, or whatever `connect` / the receiver setter raise during `__setstate__`) -/
-inductive Err | runtime | type | recursion | conn | value | copy | readiness | serial | child
+inductive Err | runtime | type | recursion | conn | value | copy | readiness | serial | child | replace
   deriving DecidableEq, Repr, Inhabited
 
 /-- behaviour switches of `__getstate__` / `__setstate__` (cf. C07's model):
@@ -531,6 +532,74 @@ def mutateS (s : S) (k k' : Nat) : S :=
            cached := fun n => (s.cached n).map (List.map (substVal k k')),
            pending := fun n => (s.pending n).map (List.map (substVal k k')) }
 
+/-! ## replacing a node (`Composite.replace_child`, `Node.replace_with`, `composite.label = Class`)
+
+The function node `n` is replaced by a FRESH instance of its class: the fresh channels start strict,
+empty, without receivers; `copy_io` re-forms every connection of the old node (refused as a whole if
+one of them is not valid for the fresh, strict channels) and copies the data values softly, through
+the fresh setters; `_seat_replacement` then puts every fresh channel exactly where the old one sat —
+in each neighbour's list and in its own — so the connection lists, seen by position, do not change;
+the value links between the parent's IO (`pins`, `pouts`) and the node are validated up front and
+re-forged afterwards (receiver assigned, value pushed with errors suppressed).  The old node is gone:
+foreign receivers that pointed at it point at nothing the graph holds. -/
+
+def replStrict (s : S) (cs : List Nat) : Nat → Bool := fun c => if c ∈ cs then true else s.strict c
+
+/-- every connection of the old node can be formed by the fresh one -/
+def replValid (P : Params) (s : S) (cs : List Nat) : Bool :=
+  cs.all fun c => (s.conns c).all fun o => effValid P { s with strict := replStrict s cs } c o
+
+/-- `_ensure_valid_value_receiver` (class and identity are fine by construction) -/
+def linkValid (P : Params) (s : S) (a b : Nat) : Bool :=
+  !(s.hinted a && s.hinted b && s.strict b && !P.hintOk a b)
+
+/-- the fresh node in the old one's place, before anything is copied -/
+def resetNode (s : S) (n : Nat) (cs : List Nat) : S :=
+  { s with strict := replStrict s cs,
+           val := fun c => if c ∈ cs then .nd else s.val c,
+           recv := fun c => if c ∈ cs then none else
+             match s.recv c with
+             | some r => if r ∈ cs then none else some r
+             | none => none,
+           running := updF s.running n false, failed := updF s.failed n false,
+           cached := updF s.cached n none, pending := updF s.pending n [] }
+
+/-- `_copy_values(other, fail_hard=False)`: every data value of the old node through the fresh setter,
+failures skipped -/
+def softCopy (P : Params) (fuel : Nat) (src : S) : S → List Nat → S
+  | st, [] => st
+  | st, c :: r =>
+    if src.val c = .nd then softCopy P fuel src st r
+    else softCopy P fuel src (setVal P fuel st c (src.val c)).1 r
+
+/-- one re-forged value link: `_value_receiver = …`, then the value pushed with exceptions suppressed -/
+def pushSoft (P : Params) (fuel : Nat) (st : S) (a b : Nat) : S :=
+  if st.kind b ≠ st.kind a then st
+  else (setVal P fuel { st with recv := updF st.recv a (some b) } b (st.val a)).1
+
+/-- the value links from the parent's inputs into the node / from the node into the parent's outputs -/
+def inLinks (s : S) (n : Nat) (pins : List Nat) : List (Nat × Nat) :=
+  pins.filterMap fun a =>
+    match s.recv a with
+    | some c => if c ∈ s.ins n then some (a, c) else none
+    | none => none
+
+def outLinks (s : S) (n : Nat) (pouts : List Nat) : List (Nat × Nat) :=
+  (s.outs n).filterMap fun c =>
+    match s.recv c with
+    | some m => if m ∈ pouts then some (c, m) else none
+    | none => none
+
+def replaceNode (P : Params) (fuel : Nat) (s : S) (n : Nat) (pins pouts : List Nat) : S × Option Err :=
+  let cs := s.ins n ++ s.outs n
+  let inb := inLinks s n pins
+  let outb := outLinks s n pouts
+  let s0 := { s with strict := replStrict s cs }
+  if replValid P s cs && (inb ++ outb).all (fun p => linkValid P s0 p.1 p.2) then
+    ((inb ++ outb).foldl (fun st p => pushSoft P fuel st p.1 p.2)
+      (softCopy P fuel s (resetNode s n cs) cs), none)
+  else (s, some .replace)
+
 /-! ## operations -/
 
 inductive Op
@@ -550,6 +619,7 @@ inductive Op
   | submit (n : Nat) (kw : List (Nat × Arg))
   | complete (n : Nat)
   | mutate (k k' : Nat)
+  | replace (n : Nat) (pins pouts : List Nat)
   deriving Repr
 
 def wrap (r : S × Option Err) : S × Out :=
@@ -571,6 +641,7 @@ def step (P : Params) (fuel : Nat) (s : S) : Op → S × Out
   | .submit n kw => submitRun P fuel s n kw
   | .complete n => completeRun P fuel s n
   | .mutate k k' => (mutateS s k k', .ok)
+  | .replace n pins pouts => wrap (replaceNode P fuel s n pins pouts)
   | .setStrict c b => ({ s with strict := updF s.strict c b }, .ok)
   | .flag n r f => ({ s with running := updF s.running n r, failed := updF s.failed n f }, .ok)
   | .roundTrip scope comps => wrap (roundTrip P fuel s scope comps)
